@@ -144,6 +144,10 @@ var c11Templates = []c11Tmpl{
 	{key: "reformat tnt", args: "reformat tnt {in}", in: "nt"},
 	{key: "reformat paml", args: "reformat paml {in}", in: "nt"},
 	{key: "reformat clean-names", args: "reformat fasta --clean-names {in}", in: "nt"},
+	{key: "reformat fasta to gz", args: "reformat fasta -o out.fa.gz {in}", in: "nt"},
+	{key: "reformat phylip to xz", args: "reformat phylip -o out.phy.xz {in}", in: "aa"},
+	{key: "compute distance to gz", args: "compute distance -m k2p -o dist.txt.gz {in}", in: "nt"},
+	{key: "dedup log gz", args: "dedup -l dedup.log.gz -o out.fa.gz {in}", in: "nt"},
 	{key: "stats", args: "stats {in}", in: "nt"},
 	{key: "stats aa", args: "stats {in}", in: "aa"},
 	{key: "stats per-sequences", args: "stats --per-sequences {in}", in: "nt"},
